@@ -78,6 +78,8 @@ type Engine struct {
 	optRecs  map[*Obj]*StructV
 	cfgFile  *cfgFileEnv
 	prune    bool
+	mapOrder bool // range over a map visits the entries in an arbitrary (symbolic) order
+	nsched   int
 	summarize *regexp.Regexp
 	concrete []NondetVal
 	cpos     int
@@ -795,6 +797,7 @@ func (e *Engine) next(fr *Frame, x *ssa.Next, st *State) {
 		v = zero(tt.At(2).Type())
 	}
 	ok := FalseT
+	var sched []*Term
 	if s < n {
 		cnt := make([][]*Term, n+1)
 		cnt[0] = make([]*Term, s+2)
@@ -812,17 +815,40 @@ func (e *Engine) next(fr *Frame, x *ssa.Next, st *State) {
 				}
 			}
 		}
-		for j := n - 1; j >= 0; j-- {
-			sel := And(it.Ents[j].P, cnt[j][s])
-			if sel == FalseT {
-				continue
+		if e.mapOrder && n > 1 {
+			// Go leaves the iteration order of a map unspecified and randomises it: the entry visited
+			// at step s is ANY present entry not visited before, chosen by a schedule variable.
+			for j := 0; j < n; j++ {
+				ok = Or(ok, And(it.Ents[j].P, cnt[j][s]))
 			}
-			ok = Or(ok, sel)
-			k = mergeV(st, sel, it.Ents[j].K, k)
-			v = mergeV(st, sel, it.Ents[j].V, v)
+			e.nsched++
+			c := e.fresh("sched", KBV, 8)
+			legal := FalseT
+			for j := n - 1; j >= 0; j-- {
+				sel := Eq(c, BVC(8, uint64(j)))
+				used := FalseT
+				for _, p := range it.Sched {
+					used = Or(used, Eq(p, BVC(8, uint64(j))))
+				}
+				legal = Or(legal, And(sel, it.Ents[j].P, Not(used)))
+				k = mergeV(st, sel, it.Ents[j].K, k)
+				v = mergeV(st, sel, it.Ents[j].V, v)
+			}
+			e.define(st, Implies(ok, legal))
+			sched = append(append(sched, it.Sched...), c)
+		} else {
+			for j := n - 1; j >= 0; j-- {
+				sel := And(it.Ents[j].P, cnt[j][s])
+				if sel == FalseT {
+					continue
+				}
+				ok = Or(ok, sel)
+				k = mergeV(st, sel, it.Ents[j].K, k)
+				v = mergeV(st, sel, it.Ents[j].V, v)
+			}
 		}
 	}
-	fr.regs[x.Iter] = &IterV{Ents: it.Ents, Step: s + 1}
+	fr.regs[x.Iter] = &IterV{Ents: it.Ents, Step: s + 1, Sched: sched}
 	fr.regs[x] = &TupleV{F: []Value{ok, k, v}}
 }
 
